@@ -14,6 +14,10 @@ use sqlparser::parser::Parser;
 use sqlparser::tokenizer::{Token, Tokenizer};
 use vh::*;
 
+// the DDL core of C01 (CREATE TABLE): modes `ddl` / `ddltables`
+#[path = "../ddl_mode.rs"]
+mod ddl_mode;
+
 /// Exhaustive on purpose: a new `Precedence` variant makes this crate fail to build, which the
 /// check reports (the pinned published order has no place for it).
 fn class_name(p: Precedence) -> &'static str {
@@ -626,6 +630,11 @@ fn main() {
             run_setop(&*d, c["sql"].as_str().unwrap())
         }),
         "qtables" => println!("{}", qtables()),
+        "ddltables" => println!("{}", ddl_mode::ddltables()),
+        "ddl" => for_each_case(|c| {
+            let d = dialect_by_name(c["dialect"].as_str().unwrap());
+            ddl_mode::run_ddl(&*d, c["sql"].as_str().unwrap())
+        }),
         "query" => for_each_case(|c| {
             let d = dialect_by_name(c["dialect"].as_str().unwrap());
             run_query(&*d, c["sql"].as_str().unwrap())
